@@ -292,11 +292,16 @@ class Check(object):
             seen.add(path)
             print('VIOLATION property=%s replay=%s%s' % (self.pid, path, '' if found else ' no-failing-input-found'))
             print('  ' + what[:300])
+        level = self.level
+        if level == 'proof' and not cov['obligations']:
+            # the proof stage never ran (machinery failure): do not claim a proof-level run
+            level = 'other'
+            cov['explanation'] = 'the check could not run its proof stage; see the VIOLATION line and the replay file'
         ev = {
             'property_id': self.pid,
             'tier': self.tier,
             'seed': self.seed,
-            'level': self.level,
+            'level': level,
             'coverage': cov,
             'assumptions': self.assumptions,
             'wall_s': round(time.time() - self.t0, 2),
